@@ -985,3 +985,160 @@ theorem over_ordered {buf : Bytes} {ts l c1 m c2 r : List Token} (hl : Lex.lexAl
   exact L.sorted _ _ (by omega) (by omega)
 
 end MF.Query
+
+namespace MF.Query
+open MF MF.Expr
+
+/-! ## the `<eof>` token is never consumed -/
+
+/-- descriptors that no `<eof>` token reads as -/
+def dGood : QD → Bool
+  | .kw k => k != .eof
+  | .e x => x.k != .eof
+  | _ => true
+
+def Good (ds : List QD) : Prop := ∀ d ∈ ds, dGood d = true
+
+theorem good_nil : Good [] := by intro d hd; cases hd
+theorem good_cons {d : QD} {ds : List QD} (h : dGood d = true) (hs : Good ds) : Good (d :: ds) := by
+  intro x hx
+  rcases List.mem_cons.1 hx with rfl | hx
+  · exact h
+  · exact hs x hx
+theorem good_append {a b : List QD} (ha : Good a) (hb : Good b) : Good (a ++ b) := by
+  intro x hx
+  rcases List.mem_append.1 hx with h | h
+  · exact ha x h
+  · exact hb x h
+
+theorem good_yX (e : PExpr) : Good (yX e) := by
+  intro d hd
+  unfold yX at hd
+  obtain ⟨y, hy, rfl⟩ := List.mem_map.1 hd
+  have := yield_NE (erase e) y hy
+  simp [dGood, this]
+
+theorem good_yAs (a : AsAlias) : Good (yAs a) := by
+  unfold yAs
+  cases a.as <;> (intro d hd; simp at hd; rcases hd with rfl | rfl <;> rfl)
+
+theorem good_yOptAs (a : Option AsAlias) : Good (yOptAs a) := by
+  cases a with
+  | none => exact good_nil
+  | some a => exact good_yAs a
+
+theorem good_yItem (i : SelectItem) : Good (yItem i) := by
+  cases i with
+  | star s => exact good_cons rfl good_nil
+  | dotStar s e => exact good_append (good_yX e) (good_cons rfl (good_cons rfl good_nil))
+  | alias e a => exact good_append (good_yX e) (good_yAs a)
+  | expr e => exact good_yX e
+
+theorem good_yItems : ∀ is : List SelectItem, Good (yItems is)
+  | [] => good_nil
+  | i :: is => good_cons rfl (good_append (good_yItem i) (good_yItems is))
+
+theorem good_yPathMore : ∀ m : List Ident, Good (yPathMore m)
+  | [] => good_nil
+  | _ :: m => good_cons rfl (good_cons rfl (good_yPathMore m))
+
+theorem good_yExprs : ∀ es : List PExpr, Good (yExprs es)
+  | [] => good_nil
+  | e :: es => good_cons rfl (good_append (good_yX e) (good_yExprs es))
+
+theorem good_yDir (d : Option (Dir × Nat)) : Good (yDir d) := by
+  rcases d with _ | ⟨d, p⟩
+  · exact good_nil
+  · cases d <;> exact good_cons rfl good_nil
+
+theorem good_yOrdItems : ∀ es : List OrderByItem, Good (yOrdItems es)
+  | [] => good_nil
+  | e :: es => good_cons rfl (good_append (good_append (good_yX e.e) (good_yDir e.dir)) (good_yOrdItems es))
+
+theorem good_yInt (v : IntValue) : dGood (yInt v) = true := by cases v <;> rfl
+
+theorem good_ySelect (s : Select) : Good (ySelect s) := by
+  unfold ySelect
+  refine good_cons rfl (good_append ?_ (good_append (good_append (good_yItem _) (good_yItems _)) (good_append ?_
+    (good_append ?_ (good_append ?_ (good_append ?_ ?_))))))
+  · rcases s.aod with _ | a
+    · exact good_nil
+    · cases a <;> exact good_cons rfl good_nil
+  · unfold trailD; cases s.trailing
+    · exact good_nil
+    · exact good_cons rfl good_nil
+  · cases s.from_ with
+    | none => exact good_nil
+    | some f =>
+      refine good_cons rfl ?_
+      cases f.source with
+      | tableName t a => exact good_cons rfl (good_yOptAs a)
+      | path f m a => exact good_cons rfl (good_append (good_yPathMore m) (good_yOptAs a))
+  · cases s.where_ with
+    | none => exact good_nil
+    | some w => exact good_cons rfl (good_yX w.e)
+  · cases s.groupBy with
+    | none => exact good_nil
+    | some g => exact good_cons rfl (good_cons rfl (good_append (good_yX g.first) (good_yExprs g.more)))
+  · cases s.having with
+    | none => exact good_nil
+    | some h => exact good_cons rfl (good_yX h.e)
+
+theorem good_yieldQ (q : QueryStatement) : Good (yieldQ q) := by
+  obtain ⟨q⟩ := q
+  have hO : ∀ o : Option OrderBy, Good (yOrder o) := by
+    intro o
+    cases o with
+    | none => exact good_nil
+    | some o =>
+      exact good_cons rfl (good_cons rfl (good_append (good_append (good_yX o.first.e) (good_yDir o.first.dir))
+        (good_yOrdItems o.more)))
+  have hL : ∀ l : Option Limit, Good (yLimit l) := by
+    intro l
+    cases l with
+    | none => exact good_nil
+    | some l =>
+      refine good_cons rfl (good_cons (good_yInt _) ?_)
+      cases l.offset with
+      | none => exact good_nil
+      | some o => exact good_cons rfl (good_cons (good_yInt _) good_nil)
+  cases q with
+  | select s => exact good_ySelect s
+  | query s o l => exact good_append (good_ySelect s) (good_append (hO o) (hL l))
+
+theorem ok_not_eof {d : QD} {t : Token} (hg : dGood d = true) (h : d.ok t = true) : t.kind ≠ .eof := by
+  intro he
+  cases d with
+  | kw k => simp [QD.ok, he, qk] at h; subst h; simp [dGood] at hg
+  | ident n => simp [QD.ok, he] at h
+  | offsetKw => simp [QD.ok, Token.isKeywordLike, he] at h
+  | int r => simp [QD.ok, he] at h
+  | param n => simp [QD.ok, he] at h
+  | e x => simp [QD.ok, proj, he, tk] at h; subst h; simp [dGood] at hg
+
+theorem match_no_eof : ∀ {ds : List QD} {pre : List Token}, Good ds → matchB ds pre = true → ∀ t ∈ pre, t.kind ≠ .eof
+  | [], [], _, _, t, ht => by cases ht
+  | [], _ :: _, _, h, _, _ => by simp [matchB] at h
+  | _ :: _, [], _, h, _, _ => by simp [matchB] at h
+  | d :: ds, u :: pre, hg, h, t, ht => by
+    simp only [matchB, Bool.and_eq_true] at h
+    rcases List.mem_cons.1 ht with rfl | ht
+    · exact ok_not_eof (hg d (by simp)) h.1
+    · exact match_no_eof (fun x hx => hg x (by simp [hx])) h.2 t ht
+
+/-- on lexer output the query statement parser leaves at least the `<eof>` token -/
+theorem rest_ne_nil {buf : Bytes} {ts rest : List Token} {f : Nat} {q : QueryStatement} (hl : Lex.lexAll buf = .ok ts)
+    (h : parseQueryStatement f ts = .ok (q, rest)) : rest ≠ [] := by
+  intro hr
+  subst hr
+  obtain ⟨⟨pre, hts, hm⟩, _⟩ := parseQueryStatement_sound h
+  simp only [List.append_nil] at hts
+  subst hts
+  obtain ⟨hne, hok⟩ := MF.Lex.lexAll_ok hl
+  obtain ⟨_, _, _, i4⟩ := tokensOK_idx hok
+  have hlen : 0 < ts.length := List.length_pos_iff.mpr hne
+  have hk := i4 (ts.length - 1) (by omega)
+  exact match_no_eof (good_yieldQ q) hm _ (tokAt_mem (by omega)) hk
+
+end MF.Query
+
